@@ -9,7 +9,9 @@ package main
 import (
 	"fmt"
 	"go/constant"
+	"os"
 	"regexp"
+	"sort"
 	"strings"
 
 	"golang.org/x/tools/go/ssa"
@@ -275,6 +277,14 @@ var wireSpecs = []wireSpec{
 }
 
 func ruleWire(c *Ctx) {
+	// the degree search, decided on its whole domain by folding when it folds
+	if fn := c.fn("op", "ScaleNote.GetDegree"); fn != nil {
+		if problem, n, ok := c.scaleDegreeByFolding(fn); ok {
+			c.site(1)
+			c.check(problem == "", "op.ScaleNote.GetDegree|domain", c.pos(fn.Pos()), fname(fn), fmt.Sprintf("%d calls (21 x 21 spellings x both orders) folded: number = letter distance, size = pitch distance, every searched class found", n), fname(fn)+": "+problem)
+			c.degreeSearchFolded = true
+		}
+	}
 	for _, ws := range wireSpecs {
 		fn := c.fn(ws.pkg, ws.fn)
 		if fn == nil {
@@ -285,6 +295,11 @@ func ruleWire(c *Ctx) {
 		for _, nf := range ws.need {
 			c.site(1)
 			key := ws.pkg + "." + ws.fn + "|" + nf.label
+			if c.degreeSearchFolded && ws.fn == "ScaleNote.GetDegree" && nf.label != "letters" {
+				// shape facts of the search are subsumed by the decision on the whole domain
+				c.ok(key, c.pos(fn.Pos()), fname(fn), "decided by op.ScaleNote.GetDegree|domain")
+				continue
+			}
 			found := hasFact(facts, nf.has...) || (len(wireAlt[key]) > 0 && hasFact(facts, wireAlt[key]...))
 			c.check(found, key, c.pos(fn.Pos()), fname(fn), "wired as stated", fmt.Sprintf("%s: %s (expected data-flow fact containing %q not found)", fname(fn), nf.why, strings.Join(nf.has, " ... ")))
 		}
@@ -654,4 +669,114 @@ func (c *Ctx) isRepoCallOrInvoke(call *ssa.Call) bool {
 	}
 	callee := staticCallee(&call.Call)
 	return callee != nil && c.isRepoFunc(callee)
+}
+
+// scaleDegreeByFolding decides op.ScaleNote.GetDegree on its whole input domain - 21 spellings (7 letters x natural,
+// sharp, flat) for the reference note and for the written note, both search orders: 882 calls - by folding:
+//   - soundness: a degree is returned only with the number given by the letter distance and the size given by the
+//     pitch distance (as the code defines it: written minus reference, raised by an octave when negative);
+//   - completeness for what the search covers: when one of the searched notation classes (major/perfect, minor or -
+//     on perfect numbers - diminished, augmented, doubly augmented, doubly diminished) has that size, it is found.
+//
+// ok=false when the function does not fold; the facts-based checks then stand alone.
+func (c *Ctx) scaleDegreeByFolding(fn *ssa.Function) (string, int, bool) {
+	names := c.enumConsts("note", "Name")
+	accs := c.enumConsts("op", "Accidental")
+	dnames := c.enumConsts("note", "DegreeName")
+	dnameOf := map[int64]string{}
+	for k, v := range dnames {
+		dnameOf[v] = k
+	}
+	accSemi := map[string]int{"Natural": 0, "Sharp": 1, "Flat": -1}
+	type sp struct {
+		letter, acc string
+		li, semi    int
+	}
+	var all []sp
+	for li, l := range specLetters {
+		for a, d := range accSemi {
+			all = append(all, sp{l, a, li, specNatural(l) + d})
+		}
+	}
+	sort.Slice(all, func(i, j int) bool {
+		if all[i].li != all[j].li {
+			return all[i].li < all[j].li
+		}
+		return all[i].acc < all[j].acc
+	})
+	noteT := func(s sp) map[string]Val {
+		return map[string]Val{
+			"Name":       &CVal{V: constant.MakeInt64(names[s.letter])},
+			"Accidental": &CVal{V: constant.MakeInt64(accs[s.acc])},
+		}
+	}
+	searched := func(number int) []Quality {
+		simple := (number-1)%7 + 1
+		if simple == 1 || simple == 4 || simple == 5 {
+			return []Quality{QPerfect, QDiminished, QAugmented, QDoublyAugmented, QDoublyDiminished}
+		}
+		return []Quality{QMajor, QMinor, QAugmented, QDoublyAugmented, QDoublyDiminished}
+	}
+	n := 0
+	for _, ref := range all {
+		for _, wr := range all {
+			for _, sharp := range []bool{false, true} {
+				recv := fval{fields: map[string]fval{"Name": {k: constant.MakeInt64(names[ref.letter])}, "Accidental": {k: constant.MakeInt64(accs[ref.acc])}}}
+				x := fval{cvptr: &StructV{Fields: noteT(wr)}}
+				r, err := c.newFolder().foldCall(fn, []fval{recv, x, {k: constant.MakeBool(sharp)}})
+				if err != nil || len(r.tuple) != 2 {
+					if os.Getenv("CRDCHECK_DEBUG") != "" {
+						fmt.Fprintf(os.Stderr, "scaleDegreeByFolding: %v %v does not fold: %v\n", ref, wr, err)
+					}
+					return "", 0, false
+				}
+				n++
+				number := (wr.li-ref.li+7)%7 + 1
+				size := wr.semi - ref.semi
+				if size < 0 {
+					size += 12
+				}
+				var want *Quality
+				for _, q := range searched(number) {
+					if s, ok := specSize(number, q); ok && s == size {
+						qq := q
+						want = &qq
+					}
+				}
+				succeeded := r.tuple[1].isNil
+				what := fmt.Sprintf("from %s%s to %s%s (sharp order=%v)", ref.letter, accSemi2(ref.acc), wr.letter, accSemi2(wr.acc), sharp)
+				if !succeeded {
+					if want != nil {
+						return fmt.Sprintf("%s: refused, although the %s %d has exactly %d semitones", what, qualityNames[*want], number, size), n, true
+					}
+					continue
+				}
+				d := r.tuple[0]
+				if d.fields == nil || d.fields["Value"].k == nil || d.fields["Name"].k == nil {
+					return "", 0, false
+				}
+				gv, _ := constant.Int64Val(d.fields["Value"].k)
+				gn, _ := constant.Int64Val(d.fields["Name"].k)
+				gq, known := degreeNameQuality[dnameOf[gn]]
+				gs, valid := 0, false
+				if known {
+					gs, valid = specSize(int(gv), gq)
+				}
+				if int(gv) != number || !valid || gs != size {
+					return fmt.Sprintf("%s: yields %s %d (%d semitones), but the letters are a %d apart and the pitches %d semitones", what, dnameOf[gn], gv, gs, number, size), n, true
+				}
+			}
+		}
+	}
+	return "", n, true
+}
+
+func accSemi2(a string) string {
+	switch a {
+	case "Sharp":
+		return "#"
+	case "Flat":
+		return "b"
+	}
+	return ""
 }
